@@ -26,6 +26,7 @@ type Config struct {
 	NoNative bool
 	Verbose  bool
 	MaxPaths int
+	Scratch  string // when set: out/ and evidence/ go under this directory instead of Verif (mutant / development runs)
 }
 
 const repoModule = "github.com/oneconcern/datamon"
@@ -294,4 +295,12 @@ func load(cfg *Config) (*Loaded, error) {
 		}
 	}
 	return L, nil
+}
+
+// workDir is where out/ and evidence/ live.
+func (c *Config) workDir() string {
+	if c.Scratch != "" {
+		return c.Scratch
+	}
+	return c.Verif
 }
